@@ -600,10 +600,16 @@ def h3(t, part):
         # branches on a leaf value), which lets the codec itself run untraced
         cnt = [0]
 
+        nbytes = [0]
+
         def leaf():
             cnt[0] += 1
             k = part['kinds'][t.choice(len(part['kinds']))]
-            return {'n': None, 'i': cnt[0], 's': 's%d' % cnt[0], 'y': b'y%d' % cnt[0]}[k]
+            if k == 'y':
+                nbytes[0] += 1
+                # pairwise distinct, except that every third byte string repeats the first (equal values are legal)
+                return b'y1' if nbytes[0] % 3 == 0 else b'y%d' % nbytes[0]
+            return {'n': None, 'i': cnt[0], 's': 's%d' % cnt[0]}[k]
 
         def tree(d):
             if d <= 0:
@@ -738,7 +744,7 @@ def h1_parts(tier):
         for ns in ('none', 'slash', 'sym'):
             for hid in (False, True):
                 if ty in BIN:
-                    for k in ((1, 3) if tier == 'quick' else (1, 2, 3, 10, 12)):
+                    for k in ((1, 3, 12) if tier == 'quick' else (1, 2, 3, 10, 11, 12)):
                         out.append(dict(L=L, type=ty, ns=ns, id=hid, data=True, k=k))
                 else:
                     for d in (False, True):
@@ -765,13 +771,13 @@ _r2, _p2 = run_bsx(h2, replay_h2)
 _rv, _pv = run_bsx(None, None)
 
 CHECKS = [
-    dict(name='payload-trees', fn=h3, parts=h3_parts, budget={'quick': 60, 'thorough': 600}, per_path_s=20),
+    dict(name='payload-trees', fn=h3, parts=h3_parts, budget={'quick': 180, 'thorough': 600}, per_path_s=20),
     dict(name='translator-validation', engine='bsx', run=_rv, replay=_pv, parts=[dict(L=40, validate=True)],
-         budget={'quick': 120, 'thorough': 120}),
+         budget={'quick': 180, 'thorough': 120}),
     dict(name='header-roundtrip', engine='bsx', run=_r1, replay=_p1, parts=h1_parts,
-         budget={'quick': 80, 'thorough': 900}),
+         budget={'quick': 180, 'thorough': 900}),
     dict(name='differential-decode', engine='bsx', run=_r2, replay=_p2, parts=h2_parts,
-         budget={'quick': 80, 'thorough': 900}),
+         budget={'quick': 180, 'thorough': 900}),
 ]
 
 META = dict(
@@ -782,9 +788,9 @@ META = dict(
                 'specification-derived encoder, and differential decoding against a specification-derived decoder on '
                 'completely arbitrary frames.',
     bounds={'quick': 'header round trip: every type x namespace {none, "/", symbolic} x id {none, symbolic n>=0} x payload '
-                     'text {none, symbolic}, total frame <= 10 code points, attachment counts {1,3}; differential '
+                     'text {none, symbolic}, total frame <= 10 code points, attachment counts {1,3,12}; differential '
                      'decode: arbitrary frame <= 8 code points',
-            'thorough': 'frame <= 16 (round trip, counts {1,2,3,10,12}) / <= 14 (differential)'},
+            'thorough': 'frame <= 16 (round trip, counts {1,2,3,10,11,12}) / <= 14 (differential)'},
     outside=['top-level numeric payloads on CONNECT/DISCONNECT/CONNECT_ERROR (Packet(4, data=12) encodes to "412", which '
              'every v5 decoder reads as id 12: the format itself is ambiguous there)', 'frames longer than L',
              'JSON loads/dumps themselves (stdlib; the payload text is an arbitrary symbolic string constrained only in '
